@@ -161,3 +161,21 @@ Theorem C13_refuted :
 Proof. vm_compute. repeat split; discriminate. Qed.
 Print Assumptions C13_refuted.
 
+(* non-vacuity, end to end on the model: a V9 template with the seven projected fields and one
+   record (10.0.0.1 -> 192.168.1.1, ports 443 -> 53, TCP, first 1000 ms, last 2000 ms) gives ONE
+   common flow carrying all of them -- protocol and times included (repairs 39ac76d, 555d804) *)
+Example C13_example :
+  match parse_bytes true (allow_list default_allowed) empty_state ([x00; x09; x00; x01; x00; x00; x00; x01; x00; x00; x00; x02; x00; x00; x00; x03; x00; x00; x00; x04; x00; x00; x00; x24; x01; x00; x00; x07; x00; x08; x00; x04; x00; x0c; x00; x04; x00; x07; x00; x02; x00; x0b; x00; x02; x00; x04; x00; x01; x00; x16; x00; x04; x00; x15; x00; x04] ++ [x00; x09; x00; x01; x00; x00; xff; xff; x00; x00; x00; x02; x00; x00; x00; x04; x00; x00; x00; x04; x01; x00; x00; x1c; x0a; x00; x00; x01; xc0; xa8; x01; x01; x01; xbb; x00; x35; x06; x00; x00; x03; xe8; x00; x00; x07; xd0; x00; x00; x00]) with
+  | Some [_; (e, _)] =>
+      match common_elem e with
+      | Some c => c_version c = 9 /\ c_ts c = 65535 /\
+                  c_flows c = [ {| c_src := Some (Ip4 167772161); c_dst := Some (Ip4 3232235777);
+                                   c_sport := Some 443; c_dport := Some 53;
+                                   c_pnum := Some 6; c_ptype := Some (proto_from_u8 6);
+                                   c_first := Some 1000; c_last := Some 2000;
+                                   c_smac := None; c_dmac := None |} ]
+      | None => False
+      end
+  | _ => False
+  end.
+Proof. vm_compute. repeat split; reflexivity. Qed.
